@@ -1,5 +1,6 @@
 import VyxalModel.Model.Online
 import VyxalModel.Gen.Sinks
+import VyxalModel.Gen.Tries
 /-!
 # C19 — online mode contains the program
 
@@ -143,6 +144,22 @@ theorem input_and_call_sites_are_literal_only :
     audited.all (fun e =>
       (e.1.1 == "helpers.vy_eval" || e.1.1 == "helpers.get_input" || e.1.1 == "elements.function_call") →
         (e.2 == .offlineOnly && e.1.2.2 == "not ctx.online") || e.2 == .literal || e.2 == .hostInput) = true := by
+  decide +kernel
+
+/-! ## error containment: the handlers that keep exceptions inside online mode -/
+
+/-- a handler that catches everything a program or an input can raise -/
+def broad (types : String) : Bool := types == "Exception" || types == "BaseException" || types == "bare"
+
+/-- the containment sites: the input reader (`vy_eval` in online mode, `get_input`) and the three stages of
+    `execute_vyxal` (transpile, exec, implicit output) -/
+def isContainmentSite (r : String × String × String × String) : Bool :=
+  (r.1 == "helpers.vy_eval" && r.2.1 == "ctx.online") || r.1 == "helpers.get_input" || r.1 == "main.execute_vyxal"
+
+/-- the five containment sites exist in the current source and each has a handler that catches every exception — a narrowed
+    `except (ValueError, SyntaxError)` or a removed `try` changes the regenerated inventory and breaks this theorem -/
+theorem containment_handlers_broad :
+    (Gen.tries.filter isContainmentSite).length = 5 ∧ (Gen.tries.filter isContainmentSite).all (fun r => broad r.2.2.1) = true := by
   decide +kernel
 
 end C19
